@@ -98,9 +98,12 @@ func (p *Provider) start(ctx context.Context, ammoFile afero.File) error {
 	return nil
 }
 
+// jsonConfig keeps payload numbers as written: int64 fields do not fit float64.
+var jsonConfig = jsoniter.Config{UseNumber: true}.Froze()
+
 func decodeAmmo(jsonDoc []byte, am *ammo.Ammo) (*ammo.Ammo, error) {
 	var ammo ammo.Ammo
-	err := jsoniter.Unmarshal(jsonDoc, &ammo)
+	err := jsonConfig.Unmarshal(jsonDoc, &ammo)
 	if err != nil {
 		return am, errors.WithStack(err)
 	}
